@@ -1,7 +1,7 @@
 //! C18 — Builder: the ISI for every option sequence, and what connect_* actually sends first.
 use std::{io::Read, net::{SocketAddr, TcpListener, UdpSocket}, time::Duration};
 
-use insim::{identifiers::RequestId, insim::IsiFlags, net::Mode, Builder, Packet};
+use insim::{identifiers::RequestId, insim::IsiFlags, Builder, Packet};
 
 use crate::{common::*, net::mode_tag, wire::{encode_p, Enc}};
 
